@@ -20,9 +20,8 @@ import ast
 
 from . import e2_formula as F
 from .core import AnchorError, Unsupported
-from .e2_eval import is_unknown, need
 from .sem import unfn, module_funcs, module_consts
-from .c01_ev import ModeEv, Sem01, NONE, const_of, unsym
+from .c01_ev import ModeEv, Sem01, NONE
 
 UTIL = "pyyeti/ode/_utilities.py"
 SOLVEUNC = "pyyeti/ode/solveunc.py"
@@ -116,17 +115,41 @@ def positive_multiple(x, ref):
 
 
 def strip_abs(x):
-    u = unfn(x)
-    if u and u[0] == "abs" and len(u[1]) == 1 and not isinstance(u[1][0], str):
-        return u[1][0], True
+    """x = p * |y| with p a power of the (positive) mass symbol -> (y, True); else (x, False)"""
+    m = F.sym("m")
+    for j in (0, 1, -1, 2, -2):
+        u = unfn(x / (m ** j)) if isinstance(x, F.Rat) else None
+        if u and u[0] == "abs" and len(u[1]) == 1 and not isinstance(u[1][0], str):
+            return u[1][0], True
     return x, False
 
 
 def abs_hook(v, ev):
+    """|v| when the sign of v is definite; a positive power of the mass is pulled out of the bars (|2 beta m| = m |2 beta|)"""
     s = definite_sign(v)
-    if s is None:
-        return None
-    return v if s > 0 else -v
+    if s is not None:
+        return v if s > 0 else -v
+    if v.depends_on("m"):
+        m = F.sym("m")
+        for j in (1, -1, 2, -2):
+            y = v / (m ** j)
+            if not y.depends_on("m"):
+                return (m ** j) * F.fn("abs", y)
+    return None
+
+
+def mass_invariant(L, R):
+    """the truth of `L op R` (an ordering comparison) does not change when the problem is rescaled by the mass: L - R is a power of m times a quantity
+    free of m"""
+    D = L - R
+    m = F.sym("m")
+    for j in (0, 1, -1, 2, -2):
+        try:
+            if not (D / (m ** j)).depends_on("m"):
+                return True
+        except Exception:  # noqa
+            pass
+    return False
 
 
 def regime_oracle(regime, par, mode_syms=("beta", "w")):
